@@ -1,5 +1,7 @@
 import PhononModel.Model.UnitAlgebra
 import PhononModel.Model.CrystalEquiv
+import PhononModel.Model.ForcePairing
+import PhononModel.Gen.WriterFormats
 import PhononModel.Gen.Units
 import PhononModel.Model.UnitSpec
 import PhononModel.Model.Wire
@@ -15,6 +17,10 @@ open PhononModel.Gen.Units PhononModel.UnitSpec
 * `equiv|same <cell> <cell>`  → `true|false`   (cell = 9 lattice rationals, n, n × (species nm m… x y z))
 * `equivg <9 Gram rationals> <cell₁> <atoms₂>` → `true|false`
 * `sgroup n s₁ … sₙ`          → `perm… ; counts…`
+* `formats`                   → `name latW latD latSep latKind latticeKind posW posD posSep posKind cart wraps reader ; …`
+* `render d x`                → the characters of `"%.{d}f" % x`
+* `line w d sep n x₁ … xₙ`    → the tokens a free-format reader sees, separated by `|`
+* `fpair u natom <9 L> tol2 <n scpos rows> nd (n disp rows)ᵈ nf (nrows (force row, printed row)ʳ)ᶠ` → `ok|count|natom i|position i`
 -/
 
 def showNorm (e : UExpr) : String :=
@@ -52,6 +58,22 @@ def readCell (c : Cur) : Option (Cell × Cur) := do
   let (L, c) ← readMat c
   let (a, c) ← readAtoms c
   pure ({ lattice := L, atoms := a }, c)
+
+def readV3s (c : Cur) (n : Nat) : Option (List ForcePairing.V3 × Cur) := do
+  let (v, c) ← c.rats? (3 * n)
+  pure ((List.range n).map (fun i => (v.getD (3 * i) 0, v.getD (3 * i + 1) 0, v.getD (3 * i + 2) 0)), c)
+
+def readOutputs (c : Cur) (nf : Nat) : Option (List ForcePairing.Output × Cur) := do
+  let mut c := c
+  let mut out : Array ForcePairing.Output := #[]
+  for _ in [0:nf] do
+    let (nr, c1) ← c.nat?
+    let (v, c2) ← c1.rats? (6 * nr)
+    let fs := (List.range nr).map (fun i => (v.getD (6 * i) 0, v.getD (6 * i + 1) 0, v.getD (6 * i + 2) 0))
+    let ps := (List.range nr).map (fun i => (v.getD (6 * i + 3) 0, v.getD (6 * i + 4) 0, v.getD (6 * i + 5) 0))
+    out := out.push { forces := fs, printed := ps }
+    c := c2
+  pure (out.toList, c)
 
 def handle (line : String) : String :=
   let c : Cur := { toks := (tokens line).toArray }
@@ -100,6 +122,51 @@ def handle (line : String) : String :=
       let (a₂, c) ← readAtoms c
       if !c.atEnd then none
       pure (toString (checkEquivWith G c₁ a₂))
+    | "fpair" =>
+      let (u, c) ← c.nat?
+      let (natom, c) ← c.nat?
+      let (L, c) ← readMat c
+      let (tol2, c) ← c.rat?
+      let (np, c) ← c.nat?
+      let (scpos, c) ← readV3s c np
+      let (nd, c) ← c.nat?
+      let mut c := c
+      let mut disps : Array (List ForcePairing.V3) := #[]
+      for _ in [0:nd] do
+        let (d, c') ← readV3s c np
+        disps := disps.push d
+        c := c'
+      let (nf, c') ← c.nat?
+      let (outs, c'') ← readOutputs c' nf
+      if !c''.atEnd then none
+      pure (match ForcePairing.collect (u != 0) natom L tol2 scpos disps.toList outs with
+        | .ok _ => "ok"
+        | .error .countMismatch => "count"
+        | .error (.natomMismatch i) => s!"natom {i}"
+        | .error (.positionMismatch i) => s!"position {i}")
+    | "formats" =>
+      if !c.atEnd then none
+      let b (x : Bool) : String := if x then "1" else "0"
+      let k (x : WriterFormat.FmtKind) : String := match x with | .fixed => "fixed" | .repr => "repr"
+      pure (" ; ".intercalate (Gen.WriterFormats.writerFormats.map fun w =>
+        s!"{w.name} {w.lattice.width} {w.lattice.decimals} {b w.lattice.sep} {k w.lattice.kind} " ++
+        (match w.latticeKind with | .vectors => "vectors" | .cellpar => "cellpar" | .triangular => "triangular") ++
+        s!" {w.position.width} {w.position.decimals} {b w.position.sep} {k w.position.kind} {b w.cartesian} {b w.wraps} " ++
+        (match w.reader with | .free => "free" | .columns => "columns")))
+    | "render" =>
+      let (d, c) ← c.nat?
+      let (x, c) ← c.rat?
+      if !c.atEnd then none
+      pure (String.ofList (WriterFormat.render d x))
+    | "line" =>
+      let (w, c) ← c.nat?
+      let (d, c) ← c.nat?
+      let (sp, c) ← c.nat?
+      let (n, c) ← c.nat?
+      let (xs, c) ← c.rats? n
+      if !c.atEnd then none
+      let f : WriterFormat.FieldFmt := { width := w, decimals := d, sep := sp != 0, kind := .fixed }
+      pure ("|".intercalate ((WriterFormat.tokens (WriterFormat.line f xs.toList)).map String.ofList))
     | "sgroup" =>
       let (n, c) ← c.nat?
       let (s, c) ← c.nats? n
